@@ -126,6 +126,9 @@ class Scheduler(object):
         self.victim = self.spec.get('victim')
         self.victim_at = self.spec.get('at')
         self.drain_queue = list(self.spec.get('drain', []))
+        # tasks held back (not scheduled at all) until the victim's window opens, so that callers
+        # that ran BEFORE the victim in the base run can also be placed inside its window
+        self.hold = set(self.spec.get('hold', [])) if self.mode == 'directed' else set()
         self.fired = False
         if self.mode == 'directed':
             self.alias = True
@@ -202,8 +205,11 @@ class Scheduler(object):
         return g
 
     def _pick_next(self, exclude):
-        pool = self.runnable - self.blocked
+        pool = self.runnable - self.blocked - self.hold
         if not pool - {exclude}:
+            pool = self.runnable - self.hold
+        if not pool - {exclude} and self.hold:
+            self.hold = set()                  # nobody else is left: the held tasks must run now
             pool = self.runnable
         cands = sorted(pool - {exclude}) if exclude is not None else sorted(pool)
         if not cands:
@@ -211,6 +217,9 @@ class Scheduler(object):
         if self.mode in ('replay', 'directed') and not self.fired:
             while self.seg_pos < len(self.segments_in):
                 t = self.segments_in[self.seg_pos][0]
+                if t in self.hold:
+                    self.seg_pos += 1
+                    continue
                 if t in self.runnable and t != exclude and (t not in self.blocked or t in cands):
                     return t
                 if t == exclude and exclude in self.runnable:
@@ -249,6 +258,7 @@ class Scheduler(object):
                 return                      # after the window: everybody runs to completion
             if tid == self.victim and tp == self.victim_at:
                 self.fired = True
+                self.hold = set()
                 self.drain_queue = [t for t in self.drain_queue if t in self.runnable and t != tid]
                 if self.drain_queue:
                     nxt = self.drain_queue.pop(0)
